@@ -212,3 +212,157 @@ Definition rmismatches cs := rmismatches_from 0 cs.
 Definition site_mismatches_from := fix go (i : nat) (cs : list N) : list nat :=
   match cs with [] => [] | c :: r => if N.eqb c 0 then i :: go (S i) r else go (S i) r end.
 Definition site_mismatches (cs : list N) : list nat := site_mismatches_from 0%nat cs.
+
+(** * 5. the BLOCKHASH environment function *)
+(** The EVM asks the application for the hash of a past block through
+    vm.BlockContext.GetHash = x/evm/keeper/state_transition.go GetHashFn.  Which
+    past headers exist is CONSENSUS state: x/staking's BeginBlocker
+    (TrackHistoricalInfo) stores the header of the block in progress and deletes
+    the entries older than the HistoricalEntries parameter.  A header hash is a
+    number here, 0 = the zero hash (also what a stored header yields that does
+    not validate / has no ValidatorsHash). *)
+Definition bhash := Z.
+Notation hinfo := (gmap Z bhash) (only parsing).
+
+(** x/staking/keeper/historical_info.go TrackHistoricalInfo, the pruning loop
+      for i := ctx.BlockHeight() - int64(entryNum); i >= 0; i-- {
+        if found(i) { delete(i) } else { break } }
+    ([fuel] = the number of values i can take) *)
+Fixpoint prune_loop (fuel : nat) (i : Z) (h : hinfo) : hinfo :=
+  match fuel with
+  | O => h
+  | S f => if i <? 0 then h
+           else match h !! i with
+                | Some _ => prune_loop f (i - 1) (delete i h)
+                | None => h
+                end
+  end.
+
+(** ... then `if entryNum == 0 { return }`, then SetHistoricalInfo(height, header) *)
+Definition track_historical_info (entries cur : Z) (hdr : bhash) (h : hinfo) : hinfo :=
+  let h1 := prune_loop (Z.to_nat (cur - entries + 1)) (cur - entries) h in
+  if entries =? 0 then h1 else <[cur := hdr]> h1.
+
+Definition max_int64 : Z := 9223372036854775807.
+Definition max_uint64 : Z := 18446744073709551615.
+
+(** Keeper.GetHashFn(ctx)(height): [cur] = ctx.BlockHeight(), [cur_hash] = ctx.HeaderHash()
+    (or, when that is empty, the hash recomputed from the context's header) *)
+Definition get_hash_fn (h : hinfo) (cur : Z) (cur_hash : bhash) (req : Z) : bhash :=
+  if max_int64 <? req then 0                       (* SafeInt64 fails *)
+  else if cur =? req then cur_hash                 (* case 1 *)
+  else if req <? cur then default 0 (h !! req)     (* case 2: staking GetHistoricalInfo *)
+  else 0.                                          (* case 3 *)
+
+(** go-ethereum core/vm opBlockhash: only the 256 blocks before the current one are addressable;
+    [req] is the 256-bit stack word *)
+Definition hash_fn (h : hinfo) (cur : Z) (cur_hash : bhash) (req : Z) : bhash :=
+  if max_uint64 <? req then 0
+  else let lower := if cur <? 257 then 0 else cur - 256 in
+       if (lower <=? req) && (req <? cur) then get_hash_fn h cur cur_hash req else 0.
+
+(** what of a replica the function depends on *)
+Record replica := mkrep { r_hist : hinfo; r_height : Z }.
+
+(** what happens to a node: a block (its inputs as far as this function goes: the
+    HistoricalEntries parameter in force and the header), or something that is not a
+    block input -- an ABCI query (eth_call, estimateGas, Simulate, bank / staking
+    queries), a CheckTx, a restart from the database, the construction of further
+    application objects in the process *)
+Inductive pevent :=
+  | PBlock (entries : Z) (hdr : bhash)
+  | PQuery (req : Z)
+  | PCheckTx (req : Z)
+  | PRestart
+  | PConstruct.
+
+(** As the code has it: a query / CheckTx runs on a branch of the committed multistore
+    that is dropped; a restart reloads the store from the database; neither the
+    historical info nor the height lives anywhere else. *)
+Definition pstep (r : replica) (e : pevent) : replica :=
+  match e with
+  | PBlock en hdr => mkrep (track_historical_info en (r_height r + 1) hdr (r_hist r)) (r_height r + 1)
+  | _ => r
+  end.
+
+Definition prun (evs : list pevent) (r : replica) : replica := fold_left pstep evs r.
+
+(** the states right after every block *)
+Fixpoint ptrace (evs : list pevent) (r : replica) : list replica :=
+  match evs with
+  | [] => []
+  | e :: rest => let r' := pstep r e in
+                 match e with PBlock _ _ => r' :: ptrace rest r' | _ => ptrace rest r' end
+  end.
+
+Definition is_block (e : pevent) : bool := match e with PBlock _ _ => true | _ => false end.
+Definition blocks_of (evs : list pevent) : list pevent := List.filter is_block evs.
+
+Definition rep0 : replica := mkrep ∅ 0.
+
+(** a chain from genesis with a constant parameter: the historical info after [n] blocks
+    (block k has the header hash [hdr k]) *)
+Fixpoint hist_after (entries : Z) (hdr : Z -> bhash) (n : nat) : hinfo :=
+  match n with
+  | O => ∅
+  | S m => track_historical_info entries (Z.of_nat n) (hdr (Z.of_nat n)) (hist_after entries hdr m)
+  end.
+Definition block_events (entries : Z) (hdr : Z -> bhash) (n : nat) : list pevent :=
+  map (fun k => PBlock entries (hdr (Z.of_nat k))) (seq 1 n).
+
+(** the heights BLOCKHASH can answer for in block [cur] *)
+Definition bh_available (entries cur req : Z) : bool :=
+  (Z.max 1 (cur - entries + 1) <=? req) && (req <? cur) && (cur - req <=? 256).
+
+(** ---- the variant with a process-local memo (NOT what the code does; used to show that
+    the agreement theorem is about something): resolved hashes are remembered in the
+    keeper object, shared by DeliverTx and queries, lost on restart *)
+Record crep := mkcrep { c_hist : hinfo; c_height : Z; c_memo : gmap Z bhash }.
+
+Definition get_hash_fn_memo (r : crep) (cur_hash : bhash) (req : Z) : bhash * gmap Z bhash :=
+  let cur := c_height r in
+  if max_int64 <? req then (0, c_memo r)
+  else if cur =? req then (cur_hash, c_memo r)
+  else if req <? cur then
+    match c_memo r !! req with
+    | Some x => (x, c_memo r)
+    | None => match c_hist r !! req with
+              | Some x => (x, <[req := x]> (c_memo r))
+              | None => (0, c_memo r)
+              end
+    end
+  else (0, c_memo r).
+
+Definition hash_fn_memo (r : crep) (cur_hash : bhash) (req : Z) : bhash * gmap Z bhash :=
+  let cur := c_height r in
+  if max_uint64 <? req then (0, c_memo r)
+  else let lower := if cur <? 257 then 0 else cur - 256 in
+       if (lower <=? req) && (req <? cur) then get_hash_fn_memo r cur_hash req else (0, c_memo r).
+
+Definition cstep (r : crep) (e : pevent) : crep :=
+  match e with
+  | PBlock en hdr => mkcrep (track_historical_info en (c_height r + 1) hdr (c_hist r)) (c_height r + 1) (c_memo r)
+  | PQuery req | PCheckTx req => mkcrep (c_hist r) (c_height r) (snd (hash_fn_memo r 0 req))
+  | PRestart => mkcrep (c_hist r) (c_height r) ∅
+  | PConstruct => r
+  end.
+Definition crun (evs : list pevent) (r : crep) : crep := fold_left cstep evs r.
+
+(** ---- correspondence with the harness (driver "replicas") ---- *)
+(** one history: the HistoricalEntries parameter of its genesis and, for every BLOCKHASH the
+    environment-probe contract evaluated in a delivered transaction or an eth_call
+    (context height, requested height as the 256-bit word, answer was non-zero) *)
+Definition two256 : Z := 2 ^ 256.   (* the harness writes a wrapped word as (two256 - d) *)
+Definition bh_obs := (Z * Z * bool)%type.
+Definition bh_case := (Z * list bh_obs)%type.
+Definition check_bh (c : bh_case) : bool :=
+  let '(e, obs) := c in
+  forallb (fun '(cur, req, nz) =>
+    Bool.eqb (negb (hash_fn (hist_after e (fun _ => 1) (Z.to_nat cur)) cur 1 req =? 0)) nz) obs.
+
+Fixpoint bh_mismatches_from (i : nat) (cs : list bh_case) : list nat :=
+  match cs with
+  | [] => []
+  | c :: r => if check_bh c then bh_mismatches_from (S i) r else i :: bh_mismatches_from (S i) r
+  end.
+Definition bh_mismatches cs := bh_mismatches_from 0 cs.
